@@ -53,11 +53,11 @@ theorem takeHeap_DI {A : List Nat} {now : Nat} {s : St} {e : Elem} (h : DI A now
   have hs : SInv (takeHeap s) := takeHeap_sinv h.sinv (by
     intro e' he'; rw [htop] at he'; cases he'; rw [h.now_eq]; exact hdue)
   obtain ⟨h0, he⟩ := top_ok htop
-  obtain ⟨e', he', hr, hq', hs', _⟩ := removeNode_spec h.sinv.heap (items_nodup h.sinv) (heap_size_lt h.sinv) (Nat.pos_of_ne_zero h0)
+  obtain ⟨e', he', hr, hq', hs', _⟩ := removeNode_spec tsCmp_ok h.sinv.heap (items_nodup h.sinv) (heap_size_lt h.sinv) (Nat.pos_of_ne_zero h0)
   have hee : e' = e := by rw [he] at he'; exact (Option.some.inj he').symm
   subst hee
-  have hre : removeNode s.timed 0 = ((removeNode s.timed 0).1, .ok e') := by rw [← hr]
-  have e1 : takeHeap s = { s with timed := (removeNode s.timed 0).1, running := s.running ++ [e'.uid] } := by
+  have hre : removeNode tsCmp s.timed 0 = ((removeNode tsCmp s.timed 0).1, .ok e') := by rw [← hr]
+  have e1 : takeHeap s = { s with timed := (removeNode tsCmp s.timed 0).1, running := s.running ++ [e'.uid] } := by
     unfold takeHeap; rw [pop_eq h0, hre]
   obtain ⟨hmem, hkey⟩ := heap_root_task h.sinv htop
   have hsub : ∀ x, x ∈ heapTasks (takeHeap s) → x ∈ heapTasks s := by
